@@ -325,7 +325,36 @@ async fn serve_tls(case: Value, acceptor: tokio_rustls::TlsAcceptor) -> SocketAd
     drop(tokio::spawn(async move {
         let Ok((tcp, _)) = listener.accept().await else { return };
         let _ = tcp.set_nodelay(true);
-        if case["hello_close"] == "pre-tls" {
+        let stage = case["hello_close"].as_str().unwrap_or("none").to_string();
+        if stage == "pre-tls" || stage == "tls-accept" {
+            drop(tcp);
+            return;
+        }
+        if stage == "tls-greeting" || stage == "tls-greeting-reset" {
+            // the peer goes away in the middle of the TLS handshake: ClientHello read, nothing answered
+            let mut tcp = tcp;
+            let mut b = [0u8; 4096];
+            let _ = tcp.read(&mut b).await;
+            if stage == "tls-greeting-reset" {
+                let _ = tcp.set_linger(Some(Duration::ZERO));
+            }
+            drop(tcp);
+            return;
+        }
+        if stage == "tls-garbage" {
+            // not a TLS server at all: answers the ClientHello with a text banner and hangs up
+            let mut tcp = tcp;
+            let mut b = [0u8; 4096];
+            let _ = tcp.read(&mut b).await;
+            let _ = tcp.write_all(b"220 this is not a TLS server\r\n").await;
+            let _ = tcp.flush().await;
+            tokio::time::sleep(Duration::from_millis(PAUSE_MS)).await;
+            drop(tcp);
+            return;
+        }
+        if stage == "tls-silent-then-close" {
+            // accepts the connection, says nothing for a while, then hangs up
+            tokio::time::sleep(Duration::from_millis(300)).await;
             drop(tcp);
             return;
         }
@@ -391,15 +420,31 @@ struct SshConn {
 impl russh::server::Handler for SshConn {
     type Error = anyhow::Error;
 
-    async fn auth_password(self, _: &str, _: &str) -> Result<(Self, russh::server::Auth), Self::Error> {
+    async fn auth_password(mut self, _: &str, _: &str) -> Result<(Self, russh::server::Auth), Self::Error> {
+        if self.case["hello_close"] == "ssh-auth" {
+            // the connection is cut while the client waits for the answer to its authentication request
+            if let Some(k) = self.kill.take() {
+                let _ = k.send(());
+            }
+            tokio::time::sleep(Duration::from_millis(200)).await;
+        }
         Ok((self, russh::server::Auth::Accept))
     }
 
     async fn channel_open_session(
-        self,
+        mut self,
         _: russh::Channel<russh::server::Msg>,
         session: russh::server::Session,
     ) -> Result<(Self, bool, russh::server::Session), Self::Error> {
+        if self.case["hello_close"] == "ssh-channel" {
+            if let Some(k) = self.kill.take() {
+                let _ = k.send(());
+            }
+            tokio::time::sleep(Duration::from_millis(200)).await;
+        }
+        if self.case["hello_close"] == "ssh-channel-refuse" {
+            return Ok((self, false, session));
+        }
         Ok((self, true, session))
     }
 
@@ -409,6 +454,36 @@ impl russh::server::Handler for SshConn {
         _name: &str,
         mut session: russh::server::Session,
     ) -> Result<(Self, russh::server::Session), Self::Error> {
+        match self.case["hello_close"].as_str().unwrap_or("none") {
+            // the peer vanishes between the subsystem request and its answer
+            "ssh-subsystem-drop" => {
+                if let Some(k) = self.kill.take() {
+                    let _ = k.send(());
+                }
+                tokio::time::sleep(Duration::from_millis(200)).await;
+                return Ok((self, session));
+            }
+            // the channel is closed without any answer to the request
+            "ssh-subsystem-close" => {
+                session.close(channel);
+                return Ok((self, session));
+            }
+            // the server has no netconf subsystem: failure, then the channel is closed
+            "ssh-subsystem-refuse" => {
+                session.channel_failure(channel);
+                session.eof(channel);
+                session.close(channel);
+                return Ok((self, session));
+            }
+            // success, then the channel is closed at once: no hello will ever come
+            "ssh-subsystem-ok-close" => {
+                session.channel_success(channel);
+                session.eof(channel);
+                session.close(channel);
+                return Ok((self, session));
+            }
+            _ => {}
+        }
         session.channel_success(channel);
         let (tx, rx) = mpsc::unbounded_channel();
         self.tx = Some(tx);
@@ -449,8 +524,30 @@ async fn serve_ssh(case: Value, key: russh_keys::key::KeyPair) -> SocketAddr {
     let listener = TcpListener::bind(("127.0.0.1", 0)).await.unwrap();
     let addr = listener.local_addr().unwrap();
     drop(tokio::spawn(async move {
-        let Ok((socket, _)) = listener.accept().await else { return };
+        let Ok((mut socket, _)) = listener.accept().await else { return };
         let _ = socket.set_nodelay(true);
+        match case["hello_close"].as_str().unwrap_or("none") {
+            "ssh-accept" => {
+                drop(socket);
+                return;
+            }
+            "ssh-banner" => {
+                // identification string, then the peer is gone
+                let _ = socket.write_all(b"SSH-2.0-fake_1.0\r\n").await;
+                let _ = socket.flush().await;
+                tokio::time::sleep(Duration::from_millis(PAUSE_MS)).await;
+                drop(socket);
+                return;
+            }
+            "ssh-garbage" => {
+                let _ = socket.write_all(b"HTTP/1.1 400 Bad Request\r\n\r\n").await;
+                let _ = socket.flush().await;
+                tokio::time::sleep(Duration::from_millis(PAUSE_MS)).await;
+                drop(socket);
+                return;
+            }
+            _ => {}
+        }
         let (ktx, krx) = tokio::sync::oneshot::channel();
         let conn = SshConn { case, tx: None, kill: Some(ktx) };
         // a second descriptor for the socket, so that the connection can be cut underneath russh
@@ -473,6 +570,20 @@ async fn serve_ssh(case: Value, key: russh_keys::key::KeyPair) -> SocketAddr {
 fn fakecli(script_path: &str) {
     // blocking implementation of the same script over stdin/stdout
     let case: Value = serde_json::from_str(&std::fs::read_to_string(script_path).expect("script")).expect("json");
+    match case["hello_close"].as_str().unwrap_or("none") {
+        // the cli exits at once without a word (not a Junos system, no permission, ...)
+        "local-exit" => std::process::exit(1),
+        "local-stderr" => {
+            eprintln!("error: netconf: could not connect to management daemon");
+            std::process::exit(1)
+        }
+        // plain text instead of NETCONF on standard output, then exit
+        "local-garbage" => {
+            println!("error: syntax error, expecting <command>: xml-mode");
+            std::process::exit(1)
+        }
+        _ => {}
+    }
     struct StdPeer {
         inbuf: Vec<u8>,
     }
